@@ -183,7 +183,7 @@ STREAM(ca_irrelevant) {
         free(t);
       }
       spqlios_verif_set_cpu_mask(0, 0, 0);
-      fprintf(out.ops, "ca nop");
+      fprintf(out.ops, "ca nop ca_irrelevant reim_from_znx64 m=%u mask=%d log2bound=0..50", m, mask);
       fprintf(out.real, "nop");
       out.endcase(verdict);
     }
